@@ -1087,6 +1087,12 @@ static void collect_fn_sigs(ASTNode *stmt, FunctionTypeRegistry *reg) {
         case AST_FOR:
             collect_fn_sigs(stmt->as.for_stmt.body, reg);
             break;
+        case AST_MATCH:
+            /* a let of function type inside a match arm needs its typedef as well */
+            for (int i = 0; i < stmt->as.match_expr.arm_count; i++) {
+                collect_fn_sigs(stmt->as.match_expr.arm_bodies[i], reg);
+            }
+            break;
         default:
             break;
     }
